@@ -564,8 +564,8 @@ func (db *Database) performFuzzySearch(query string, options SearchOptions) []Se
 			break
 		}
 
-		// Apply fuzzy threshold
-		if options.FuzzyThreshold > 0 && match.Score < options.FuzzyThreshold {
+		// Apply fuzzy threshold (0 = none; the default threshold is negative)
+		if options.FuzzyThreshold != 0 && match.Score < options.FuzzyThreshold {
 			continue
 		}
 
